@@ -324,6 +324,43 @@ def plan(tier, seed):
     return [dict(name=f"hist-{i}", i=i) for i in range(NSHARD)] + [dict(name="scenarios", kind="scen")]
 
 
+def check_stub_next_to_sidecar(which, rec):
+    """The documented stub use case (only the manifest of a record is kept locally): creating the stub under the
+    record's own name next to that manifest must not replace the manifest - it belongs to a committed container."""
+    from metador_core.ih5.manifest import IH5MFRecord
+
+    root = H.new_scratch("vt-c02s-")
+    case = dict(kind="stubsidecar", which=which)
+    try:
+        p = os.path.join(root, "rec")
+        r = IH5MFRecord(p, "w")
+        r["a"] = 1
+        r.commit_patch()
+        r.create_patch()
+        r["b"] = 2
+        r.close()
+        away = os.path.join(root, "away")
+        os.mkdir(away)
+        for f in [x for x in os.listdir(root) if x.endswith(".ih5")]:
+            shutil.move(os.path.join(root, f), os.path.join(away, f))  # containers elsewhere, manifests stay
+        before = recutil.dir_digest(root)
+        mfile = os.path.join(root, "rec.ih5mf.json" if which == "base" else "rec.p1.ih5mf.json")
+        try:
+            st_ = IH5MFRecord.create_stub(Path(p), Path(mfile))
+            st_.close()
+        except Exception:  # noqa: BLE001 - refusing is fine
+            H.close_leaked_h5()
+        after = recutil.dir_digest(root)
+        ch = sorted(n for n in before if n.endswith(".json") and after.get(n) != before[n])
+        if ch:
+            rec.fail("C02:manifest-of-committed-container-replaced:create_stub", case,
+                     f"create_stub('rec', {os.path.basename(mfile)}) changed {ch}", "manifest sidecars of committed containers untouched")
+        rec.case(nt_key=["stubsidecar", which], classes=["stub_next_to_kept_manifest"], sample=case)
+    finally:
+        H.close_leaked_h5()
+        shutil.rmtree(root, ignore_errors=True)
+
+
 def check_relpath_chdir(cls, how, rec):
     """A record opened by a RELATIVE path keeps working on its own files when the process changes its working
     directory - it never touches the committed files of a same-named record in the new working directory."""
@@ -380,6 +417,8 @@ def run_shard(shard, tier, seed, rec):
         for cls in (H.IH5Record, H.IH5MFRecord):
             for how in ("commit", "discard", "close"):
                 check_relpath_chdir(cls, how, rec)
+        for which in ("base", "patch"):
+            check_stub_next_to_sidecar(which, rec)
         return
     i = shard["i"]
     n = {"quick": 100, "thorough": 1300}[tier]
@@ -392,7 +431,9 @@ def run_shard(shard, tier, seed, rec):
 def replay(rp, rec):
     H.install_work_guard()
     try:
-        if rp["case"].get("kind") == "chdir":
+        if rp["case"].get("kind") == "stubsidecar":
+            check_stub_next_to_sidecar(rp["case"]["which"], rec)
+        elif rp["case"].get("kind") == "chdir":
             check_relpath_chdir(H.IH5Record if rp["case"]["cls"] == "IH5Record" else H.IH5MFRecord, rp["case"]["how"], rec)
         else:
             run_case(rp["case"], rec)
